@@ -168,7 +168,7 @@ pub fn run_bytes(i0: u32, d: &[u8]) -> String {
     )
 }
 
-fn marker_free_byte(rng: &mut Rng) -> u8 {
+pub fn marker_free_byte(rng: &mut Rng) -> u8 {
     // never 0x01, so no 4-byte marker (which ends in 0x01) can be completed by these bytes alone
     loop {
         let b = match rng.below(10) {
@@ -183,7 +183,7 @@ fn marker_free_byte(rng: &mut Rng) -> u8 {
         }
     }
 }
-fn any_byte(rng: &mut Rng) -> u8 {
+pub fn any_byte(rng: &mut Rng) -> u8 {
     match rng.below(10) {
         0 => b'D',
         1 => b'L',
@@ -194,7 +194,7 @@ fn any_byte(rng: &mut Rng) -> u8 {
     }
 }
 
-fn gen_msg(rng: &mut Rng, serial: bool, clean: bool, big_micros: bool, tier: u32, huge: bool) -> Item {
+pub fn gen_msg(rng: &mut Rng, serial: bool, clean: bool, big_micros: bool, tier: u32, huge: bool) -> Item {
     let sh = if serial {
         vec![]
     } else {
@@ -274,7 +274,7 @@ fn gen_msg(rng: &mut Rng, serial: bool, clean: bool, big_micros: bool, tier: u32
     Item::M { sh, htyp, mcnt, add, payload }
 }
 
-fn gen_case(rng: &mut Rng, tier: u32) -> Case {
+pub fn gen_case(rng: &mut Rng, tier: u32) -> Case {
     let serial = rng.chance(3);
     // maximum-size messages only in dedicated well-formed cases with short garbage (the list-based model
     // re-measures the remaining input at every skipped byte: skipping through a corrupt 64 KiB message is quadratic)
